@@ -142,6 +142,8 @@ def generate(rng, tier):
         "streamfault": streamfault, "latin1_at": latin1_at, "readfault_nth": rng.range(1, 4),
         "diff": text, "p": p, "filter": flt, "expected": expected, "ctx": ctx,
         "child": rng.choice(["ok"] * 5 + ["exit1", "exit101", "signal9", "signal11", "enoent", "e2big"]),
+        # the tool's own standard output cannot be written (reader gone: EPIPE; disk full: ENOSPC)
+        "outfault": rng.choice([None] * 5 + [32, 28]),
         "chunks": [rng.choice(["1", "7,1,30", "64", "3,200", "1000000"]), rng.choice(["2,5", "13", "1,1,1,4096"])],
         "eintr": rng.chance(20), "hashseed": rng.below(1 << 32),
     }
@@ -177,6 +179,8 @@ def execute(case):
                 plan.append("* read 2 @0 eintr 2")
             if e2big:
                 plan.append("0 spawn 1 stub-rustfmt errno 7")
+            if case.get("outfault"):
+                plan.append("0 write 0 @1 errno %d" % case["outfault"])
             sf = case.get("streamfault")
             stdin = case["diff"]
             if sf == "read-eio":
@@ -218,15 +222,23 @@ def execute(case):
                             v.add("C19:unreadable-patch-partly-applied|%s" % sf, "%s: the diff could not be read to the end, yet the tool exited 0 after asking for %s (complete answer: %s)" % (det, got, exp))
                     v.probe("unreadable-stream")
                 continue
+            outfired = False
+            if case.get("outfault"):
+                v.planned("stdout-errno")
+                outfired = any(e.fault and e.op == "write" for e in res.procs[0])
+                if outfired:
+                    v.fired("stdout-errno")
             ab = core.abnormal(res)
-            if ab and not ab.startswith("exit:"):
+            # (a message that cannot be printed ends the tool through println!'s panic: a failure, which is all the
+            # property asks for)
+            if ab and not ab.startswith("exit:") and not (outfired and ab.startswith("panic@") and res.exit == 101):
                 v.add("C19:abnormal|%s" % ab, det + " stderr=%r" % core.text_of(res.stderr)[:200])
                 continue
             if e2big:
                 if any(e.fault for e in res.procs[0]):
                     v.planned("spawn-e2big"); v.fired("spawn-e2big")
                     if exp and res.exit == 0:
-                        v.add("C19:exit-0-despite-failing-child|e2big", "%s: spawning rustfmt failed with E2BIG (and the first retry, if any, exited 1), yet the tool exited 0" % det)
+                        v.add("C19:exit-0-despite-failing-child|e2big" + ("|stdout-unwritable" if outfired else ""), "%s: spawning rustfmt failed with E2BIG (and the first retry, if any, exited 1), yet the tool exited 0" % det)
                 continue
             got_files, got_ranges = None, None
             call_argv = None
@@ -272,8 +284,8 @@ def execute(case):
             if failing:
                 v.planned("child:" + child); v.fired("child:" + child)
             if failing and res.exit == 0:
-                v.add("C19:exit-0-despite-failing-child|%s" % child, det)
-            if not failing and res.exit != 0:
+                v.add("C19:exit-0-despite-failing-child|%s" % child + ("|stdout-unwritable" if outfired else ""), det)
+            if not failing and res.exit != 0 and not outfired:
                 v.add("C19:nonzero-exit-although-child-succeeded", det)
         if len(results) == 2 and results[0] != results[1]:
             v.add("C19:chunking-changes-result", "two chunkings of the same diff: %s vs %s" % (results[0], results[1]))
